@@ -202,6 +202,9 @@ func (d *Downstream) ReadMetadata(ctx context.Context) (*DownstreamMetadata, err
 }
 
 func (d *Downstream) run() error {
+	d.connStatus.cond.L.Lock()
+	reconnects := d.connStatus.ReconnectsWithoutLock()
+	d.connStatus.cond.L.Unlock()
 	ctx, cancel := context.WithCancel(d.ctx)
 	defer cancel()
 	eg, ctx := errgroup.WithContext(ctx)
@@ -235,7 +238,7 @@ func (d *Downstream) run() error {
 
 	eg.Go(func() error {
 		d.connStatus.cond.L.Lock()
-		for !d.connStatus.IsWithoutLock(connStatusReconnecting) {
+		for !d.connStatus.IsWithoutLock(connStatusReconnecting) && d.connStatus.ReconnectsWithoutLock() == reconnects {
 			select {
 			case <-ctx.Done():
 				d.connStatus.cond.L.Unlock()
